@@ -510,9 +510,28 @@ impl Exec {
             return false;
         }
         let reads = self.tr.events.iter().filter(|e| e["a"] == "Read").count() as i64;
-        let g = self.c.inbox.0.lock().unwrap();
-        let stopped = g.msgs.iter().filter(|m| m["event"] == "stopped").count();
-        g.msgs.len() == n1 && reads == upto && Client::answered(&g, upto) && stopped >= self.tr.n_emit
+        {
+            let g = self.c.inbox.0.lock().unwrap();
+            let stopped = g.msgs.iter().filter(|m| m["event"] == "stopped").count();
+            if !(g.msgs.len() == n1 && reads == upto && Client::answered(&g, upto) && stopped >= self.tr.n_emit) {
+                return false;
+            }
+        }
+        // ... and no thread of the adapter is running or runnable (a coordinator that has logged a decision and is about
+        // to act on it - the repaired drop-and-resume - is), with nothing logged in the meantime
+        let (len, off) = (self.tr.events.len(), self.tr.offset);
+        let pid = self.c.child.id();
+        let Ok(rd) = std::fs::read_dir(format!("/proc/{pid}/task")) else { return false };
+        for t in rd.flatten() {
+            let stat = std::fs::read_to_string(t.path().join("stat")).unwrap_or_default();
+            // "tid (comm) S ..." - the state follows the last ')'
+            let state = stat.rsplit(')').next().and_then(|r| r.trim_start().chars().next()).unwrap_or('?');
+            if state != 'S' {
+                return false;
+            }
+        }
+        self.tr.feed(&self.log);
+        len == self.tr.events.len() && off == self.tr.offset && self.c.seen() == n1
     }
 
     fn quiesce(&mut self, budget: Duration, probe: bool) -> bool {
